@@ -627,6 +627,43 @@ func tcpClient(addr string, c, n int, seed uint64, nShared int, st *stressStats,
 	}
 }
 
+// msgClient drives Server.ServeMsg (the DoH / DoQ / embedder entry: decoded
+// request, pooled chain) concurrently with the socket clients; each call has
+// its own capturing writer, which must receive its own reply and nothing else.
+func msgClient(l *srvh.Live, c, n int, seed uint64, nShared int, st *stressStats, fb *failBox, done *sync.WaitGroup) {
+	defer done.Done()
+	r := vlib.NewR(seed*9000011 + uint64(c))
+	var mine []string
+	remote := &net.TCPAddr{IP: net.IPv4(198, 51, 100, byte(c)), Port: 5000 + c}
+	for seq := 1; seq <= n; seq++ {
+		raw, name := stressPacket(r, c, seq, nShared, st, mine)
+		req := new(dns.Msg)
+		if len(raw) < 12 || req.Unpack(raw) != nil || len(req.Question) != 1 || req.Response {
+			continue
+		}
+		if name != "" && strings.HasSuffix(name, "-ok.z.c10.") && len(mine) < 32 {
+			mine = append(mine, name)
+		}
+		st.sent.Add(1)
+		w := l.Msg(req, remote, vlib.Pick(r, []string{"doh", "doq"}))
+		if len(w.Msgs) > 1 {
+			fb.set("stress/msg/more-than-one-reply", "ServeMsg caller %d seq %d received %d replies", c, seq, len(w.Msgs))
+			return
+		}
+		for _, m := range w.Msgs {
+			b, err := m.Pack()
+			if err != nil {
+				continue
+			}
+			if why := whyNotOwn(raw, b); why != "" {
+				fb.set("stress/msg/not-own-reply", "ServeMsg caller %d seq %d: %s", c, seq, why)
+				return
+			}
+			st.replies.Add(1)
+		}
+	}
+}
+
 func nameOfRaw(raw []byte) string {
 	m := new(dns.Msg)
 	if err := m.Unpack(raw); err != nil || len(m.Question) != 1 {
@@ -663,6 +700,10 @@ func execStress(f []string) vlib.Res {
 	for c := 0; c < nt; c++ {
 		senders.Add(1)
 		go tcpClient(l.Addr, nu+c, per, seed, nShared, st, fb, &senders)
+	}
+	for c := 0; c < 4; c++ {
+		senders.Add(1)
+		go msgClient(l, nu+nt+c, per, seed, nShared, st, fb, &senders)
 	}
 	senders.Wait()
 	deadline := time.Now().Add(4 * time.Second)
